@@ -30,6 +30,18 @@ pub fn vol_scale() -> u32 {
     VOL_SCALE.load(std::sync::atomic::Ordering::Relaxed)
 }
 
+/// Large-clock regime (DESIGN.md 3.6): real time = specification time * TIME_SCALE + TIME_OFFSET.  The specification only
+/// compares, copies and (under the clock discipline) advances times, so it is invariant under such a map; the real book then
+/// runs with epoch-like clocks whose successive values differ by more than 2^32.
+pub static TIME_SCALE: std::sync::atomic::AtomicU64 = std::sync::atomic::AtomicU64::new(1);
+pub static TIME_OFFSET: std::sync::atomic::AtomicU64 = std::sync::atomic::AtomicU64::new(0);
+
+/// specification time -> real time
+pub fn time_r(t: u64) -> u64 {
+    t.checked_mul(TIME_SCALE.load(std::sync::atomic::Ordering::Relaxed)).and_then(|x| x.checked_add(TIME_OFFSET.load(std::sync::atomic::Ordering::Relaxed)))
+        .expect("harness: scaled time out of range")
+}
+
 pub fn price_offset() -> u32 {
     PRICE_OFFSET.load(std::sync::atomic::Ordering::Relaxed)
 }
